@@ -82,6 +82,40 @@ pub fn gen_c12(out: &mut Out, seed: u64, thorough: bool) {
             let got = run_case(&c2, 0xA5);
             emit(out, &c2, 0xA5, &got, "", "one-dimension");
         }
+        // ... and judged on the implementation alone: the same resize of a source that holds only the crop box's
+        // columns (width matches) or only its rows (height matches) must give the very same bytes - whatever lies
+        // left / right of (above / below) the box takes no part, on every back-end, for every width of the SIMD tails
+        if rng.chance(1, 3) {
+            let n = pt_comps(pt);
+            let vertical_only = rng.chance(1, 2);
+            let mut c2 = case.clone();
+            let mut c3 = case.clone();
+            if vertical_only {
+                let nh = random_size(&mut rng, 24);
+                c2.dshape = plain(w, nh);
+                c3.dshape = plain(w, nh);
+                c3.sshape = plain(w, sh);
+                c3.sbuf = (0..sh as usize)
+                    .flat_map(|y| {
+                        let a = (y * sw as usize + l as usize) * n;
+                        case.sbuf[a..a + w as usize * n].to_vec()
+                    })
+                    .collect();
+                c3.crop = CropSpec::Box(0.0, t as f64, w as f64, h as f64);
+            } else {
+                let nw = random_size(&mut rng, 24);
+                c2.dshape = plain(nw, h);
+                c3.dshape = plain(nw, h);
+                c3.sshape = plain(sw, h);
+                let a = t as usize * sw as usize * n;
+                c3.sbuf = case.sbuf[a..a + h as usize * sw as usize * n].to_vec();
+                c3.crop = CropSpec::Box(l as f64, 0.0, w as f64, h as f64);
+            }
+            c2.crop = CropSpec::Box(l as f64, t as f64, w as f64, h as f64);
+            let got = run_case(&c2, 0xA5);
+            let got_b = run_case(&c3, 0xA5);
+            emit(out, &c2, 0xA5, &got, &format!(" check=same2 gotB={}", got_b), if vertical_only { "one-dimension:columns-of-the-box-only" } else { "one-dimension:rows-of-the-box-only" });
+        }
     }
     // SuperSampling whose intermediate image has the destination size (multiplicity 1, integer
     // aspect-preserving scale): the result is the nearest-neighbour image itself
@@ -274,6 +308,22 @@ pub fn gen_c05(out: &mut Out, seed: u64, thorough: bool) {
             case.alg = AlgSpec::nearest();
             case.crop = flush_crop(&mut rng, sw, sh);
             case.dshape = placements(dw, dh, rng.below(PLACEMENTS as u64) as usize);
+        }
+        if i % 9 == 4 {
+            // one pass only, written straight into the caller's view: an integer crop box strictly inside the source whose
+            // height (or width) is the destination's - the source has rows below (columns right of) the box, the
+            // destination view has parent rows below it; row loops that are bounded by the source instead of the view spill
+            let (sw, sh) = (rng.range(6, 26) as u32, rng.range(6, 26) as u32);
+            let l = rng.below(3) as u32;
+            let t = rng.below(3) as u32;
+            let w = rng.range(1, (sw - l - 1) as u64) as u32;
+            let h = rng.range(1, (sh - t - 1) as u64) as u32;
+            let horizontal_only = rng.chance(2, 3);
+            let (dw, dh) = if horizontal_only { (random_size(&mut rng, 24), h) } else { (w, random_size(&mut rng, 24)) };
+            case = base_case(&mut rng, pt, sw, sh, dw, dh);
+            case.crop = CropSpec::Box(l as f64, t as f64, w as f64, h as f64);
+            case.dshape = placements(dw, dh, 2 + rng.below(3) as usize);
+            out.count(if horizontal_only { "one-pass:horizontal-only-into-cropped-view" } else { "one-pass:vertical-only-into-cropped-view" });
         }
         if i % 97 == 5 && pt_kind(pt) == Kind::U8 {
             // recorded finding F18: a custom kernel whose weights all vanish on a one-pixel-wide 8-bit source
